@@ -65,3 +65,20 @@ package fasthttp
 //@   end
 //@   ensures[one-chunk-per-non-empty-write] chunks == (len(p) > 0 ? 1 : 0)
 //@   ensures[all-or-error] err == nil ==> n == len(p)
+
+// ResponseHeader.SetContentLength (C03): declaring a fixed length always removes a stored `Transfer-Encoding` field --
+// whatever the stored length was before (a handler may have set or deleted Content-Length by hand in between) --
+// so the header block never announces chunked framing in front of an un-chunked body.
+//@ func ResponseHeader.SetContentLength
+//@   property C03
+//@   mode skeleton
+//@   ghost skipped bool = false
+//@   ghost teDropped bool = false
+//@   on call ResponseHeader.mustSkipContentLength -> r:
+//@     nohavoc
+//@     effect skipped = r
+//@   on call delAllArgs(_, k) -> r:
+//@     also
+//@     effect teDropped = teDropped || k == HeaderTransferEncoding
+//@   end
+//@   ensures[fixed-length-drops-transfer-encoding] contentLength >= 0 && !skipped ==> teDropped
